@@ -2,6 +2,7 @@
 // M3: complete products angle x axis (x length) and (r, theta, phi) x axis.
 #include "mc/mc.hpp"
 #include "mc/exit_trap.hpp"
+#include "mc/purity.hpp"
 #include "libphysica/Linear_Algebra.hpp"
 using namespace libphysica;
 typedef long double ld;
@@ -309,6 +310,27 @@ static void spherical(unsigned long long& unit)
 	mc::count("distinct_nontrivial", cases);
 }
 
+// ---- call histories over rotations, spherical coordinates and angles ------------------------------------------------------------------
+static void histories(unsigned long long& unit)
+{
+	auto ms = [](const Matrix& M) { std::string o; for(unsigned i = 0; i < M.Rows(); i++) for(unsigned j = 0; j < M.Columns(); j++) o += mc::hexd(M[i][j]) + ","; return o; };
+	auto vs = [](const Vector& v) { std::string o; for(unsigned i = 0; i < v.Size(); i++) o += mc::hexd(v[i]) + ","; return o; };
+	std::vector<mc::PureLetter> L;
+	L.push_back({"Rotation_Matrix(0.7,2)", [=]() { return ms(Rotation_Matrix(0.7, 2)); }});
+	L.push_back({"Rotation_Matrix(1e-6,2)", [=]() { return ms(Rotation_Matrix(1e-6, 2)); }});
+	for(auto ax : std::vector<std::vector<double>>{{0, 0, 1}, {0, 0, -1}, {1, 2, 3}, {1, 2, -3}, {2, 1, 0}, {1e-9, 0, 1}})
+		for(double al : {0.7, -11.0})
+			L.push_back({"Rotation_Matrix(" + mc::dec(al) + ",3,{" + mc::decv(ax) + "})", [=]() { return ms(Rotation_Matrix(al, 3, Vector(ax))); }});
+	L.push_back({"Spherical_Coordinates(2,1.1,0.7)", [=]() { return vs(Spherical_Coordinates(2, 1.1, 0.7)); }});
+	for(auto ax : std::vector<std::vector<double>>{{0, 0, 1}, {0, 0, -1}, {1, 2, 3}, {1, 2, -3}, {2, 1, 0}, {2, 1, 3}, {1e-9, 0, -1}})
+		L.push_back({"Spherical_Coordinates(2,1.1,0.7,{" + mc::decv(ax) + "})", [=]() { return vs(Spherical_Coordinates(2, 1.1, 0.7, Vector(ax))); }});
+	L.push_back({"Angle({1,2,3},{-2,0.5,1})", [=]() { return mc::hexd(Angle(Vector({1, 2, 3}), Vector({-2, 0.5, 1}))); }});
+	L.push_back({"Angle(parallel)", [=]() { return mc::hexd(Angle(Vector({0.1, 0.2, 0.3}), Vector({0.1, 0.2, 0.3}))); }});
+	long long t = mc::purity("histories", L, mc::thorough() ? 3 : 2, unit);
+	mc::count("evaluations", t);
+	mc::count("distinct_nontrivial", t);
+}
+
 int main(int argc, char** argv)
 {
 	mc::init(argc, argv);
@@ -317,6 +339,7 @@ int main(int argc, char** argv)
 	unsigned long long unit = 0;
 	rotations(unit);
 	spherical(unit);
+	histories(unit);
 	if(mc::shard0()) mc::sample("Spherical_Coordinates(r=1, theta=pi/22, phi=pi/12, axis=(0,0,-1e6)): norm, v.n = r cos(theta), right-handed ring in phi; Rotation_Matrix(alpha=7pi/12, axis=(1,-2,3)): orthogonal, det 1, axis fixed, perpendicular vector turned by alpha");
 	return mc::finish();
 }
